@@ -174,6 +174,11 @@ def check(ctx):
     a = check_exits(ctx, eng, outs, FN, F.body(FN))
     e2, outs2 = lib_parse.standalone(ctx, CONSUME)
     c = check_exits(ctx, e2, outs2, CONSUME, F.body(CONSUME), consume=True)
+    # a prefix must be *reported*: a panic on the way (overflow in a length computation, an index past the prefix) is
+    # neither Incomplete nor an error — the panic-capable sites met by the two analyses above are obligations here too
+    from rules import lib_panic
+    lib_panic.report(ctx, eng, "PANIC", entry=FN)
+    lib_panic.report(ctx, e2, "PANIC", entry=CONSUME)
     for nm, (h, p, e, o) in (("dlt_message_intern", a), ("dlt_consume_msg", c)):
         R.instance("HINT", "%s: %d linear/entailed hints within 1..shortfall, %d joined hints not decided" % (nm, h, p))
         R.instance("ERR", "%s: %d hard-error exit partition(s) on incomplete input, each justified by a value check" % (nm, e))
